@@ -25,6 +25,13 @@ HARNESS = os.path.join(VERIF, "harness")
 MODULE = "github.com/BlackVectorOps/semantic_firewall/v3"
 TLA_JAR = "/opt/veriftools/tla/tla2tools.jar:/opt/veriftools/tla/CommunityModules-deps.jar"
 NCPU = os.cpu_count() or 4
+# blind-spot report (tools/covreport.py): build the driver and sfw with -cover and collect counters here
+COVER_DIR = os.environ.get("VERIF_COVER", "")
+COVER_PKGS = "./pkg/...,./internal/..."
+COVER_FLAGS = ["-cover", "-coverpkg=" + COVER_PKGS] if COVER_DIR else []
+if COVER_DIR:
+    os.makedirs(COVER_DIR, exist_ok=True)
+    os.environ["GOCOVERDIR"] = COVER_DIR
 
 
 class Inconclusive(Exception):
@@ -39,6 +46,8 @@ def go_env():
     env["GOFLAGS"] = "-mod=mod"
     env["GOPROXY"] = "off"
     env.setdefault("GOCACHE", os.path.join(os.path.expanduser("~"), ".cache", "go-build"))
+    if COVER_DIR:
+        env["GOCOVERDIR"] = COVER_DIR
     return env
 
 
@@ -99,7 +108,7 @@ class Ctx:
         if self._drv and key in self._drv:
             return self._drv[key]
         out = os.path.join(self.scratch, "verifdrv_" + key)
-        cmd = ["go", "build", "-tags", "verif", "-overlay", self.overlay(), "-o", out]
+        cmd = ["go", "build", "-tags", "verif", "-overlay", self.overlay(), "-o", out] + COVER_FLAGS
         if race:
             cmd.append("-race")
         cmd.append("./cmd/verifdrv")
@@ -114,7 +123,7 @@ class Ctx:
         if self._sfw:
             return self._sfw
         out = os.path.join(self.scratch, "sfw")
-        p = run(["go", "build", "-tags", "verif", "-o", out, "./cmd/sfw"], cwd=REPO, env=go_env(), timeout=900)
+        p = run(["go", "build", "-tags", "verif"] + COVER_FLAGS + ["-o", out, "./cmd/sfw"], cwd=REPO, env=go_env(), timeout=900)
         if p.returncode != 0:
             raise Inconclusive("cannot build sfw from /repo working tree:\n" + p.stdout[-6000:])
         self._sfw = out
@@ -126,6 +135,9 @@ class Ctx:
         env.update(env_extra or {})
         cmd = ["go", "test", "-tags", "verif", "-overlay", self.overlay(), "-count=1", "-vet=off",
                "-timeout", "%ds" % timeout, "-run", run_re]
+        if COVER_DIR:
+            cmd += ["-coverpkg=" + COVER_PKGS,
+                    "-coverprofile=" + os.path.join(COVER_DIR, "inpkg_%d_%d.prof" % (os.getpid(), int(time.time() * 1000) % 10**9))]
         if race:
             cmd.append("-race")
         cmd.append("./" + pkg)
